@@ -96,6 +96,9 @@ func NewContractSet() *ContractSet {
 }
 
 func fullKey(pkgPath, key string) string {
+	if strings.HasPrefix(key, "=") {
+		return key[1:]
+	}
 	if pkgPath == "" {
 		return key
 	}
@@ -192,7 +195,9 @@ func (cs *ContractSet) ParseFile(file, pkgPath string) error {
 			head := strings.Fields(rest[:k])
 			lm := &Lemma{Name: head[0], PkgPath: pkgPath, Opts: map[string]string{}}
 			for _, h := range head[1:] {
-				if h != "props" {
+				if h == "seq" {
+					lm.Opts["strings"] = "seq"
+				} else if h != "props" {
 					lm.Props = append(lm.Props, h)
 				}
 			}
